@@ -268,6 +268,10 @@ def check_case(case):
                 break
     tol = case["solver"]["tol"]
     claims = out.stop < tol if solver == "FISTA" else out.stop <= tol
+    if not claims and not viol and ran:
+        msg = c01.stagnation(case, out, tol)
+        if msg:
+            viol.append(Viol(dict(sig, kind="stagnates"), f"{solver} on {case['flags']}: {msg}"))
     if claims and not viol and solver != "PDCD_WS":
         strat = case["solver"].get("ws_strategy") or "subdiff"
         if solver in ("GramCD", "GroupProxNewton", "LBFGS"):
